@@ -98,7 +98,11 @@ func (t WebsocketTransport) startReader() {
 				return
 			}
 			if len(data) > 0 {
-				t.queue <- data
+				select {
+				case t.queue <- data:
+				case <-t.closeCtx.Done():
+					return
+				}
 			}
 		}
 	}()
@@ -161,10 +165,10 @@ func (t *WebsocketTransport) LogTraffic(logFile io.Writer) {
 
 func (t *WebsocketTransport) cleanup(code websocket.StatusCode) error {
 	var err error
-	if t.queue != nil {
-		close(t.queue)
-		t.queue = nil
-	}
+	// The queue is not closed: Close works on a copy of the transport, so a second Close (the StreamManager
+	// disconnects on a stream error, and so does the receiver) would close it again and panic, as would the
+	// reader goroutine when it delivers a message at that moment. Read returns once closeCtx is cancelled.
+	t.queue = nil
 	if t.wsConn != nil {
 		err = t.wsConn.Close(websocket.StatusGoingAway, "Done")
 		t.wsConn = nil
